@@ -77,7 +77,7 @@ def run(ctx) -> None:
   ctx.rule('R10', 'a to_proto that starts from the remembered proto clears every repeated field before it re-populates it '
            '(otherwise removed entries come back on the wire)', 2)
   ctx.rule('R9', 'datetime <-> Timestamp conversions use one convention (epoch seconds; no naive-UTC helpers)', 1)
-  ctx.import_rules('C10', {'R6', 'R1'}, 'R7', 'metadata values: str, then Any (stored as is), then other messages packed once')
+  ctx.import_rules('C10', {'R6', 'R1', 'R8'}, 'R7', 'metadata values: str, then Any (stored as is), then other messages packed once')
   ctx.import_rules('C16', {'R8'}, 'R6', 'conditional spaces survive conversion only if every subspace owns its own config objects')
   mi = ctx.index.module_of_file(PC)
   pairs: List[Tuple[ClassInfo, FuncInfo, FuncInfo]] = []
